@@ -1,7 +1,7 @@
 """C07 - parsing preserves every declared element of an ASN.1 module (DESIGN.md section 7, C07)."""
 import json, os, subprocess
 import vlib, asnprint
-from vlib import run_tlc, cargo_build, outdir, ToolError
+from vlib import run_tlc, run_bin, cargo_build, outdir, ToolError
 
 PER_MODULE = 60
 
@@ -92,6 +92,7 @@ def run(v):
                     v.violation("parsed model differs from the declared definition: %s" % asnprint.definition(c["ast"]),
                                 {"asn1": asnprint.definition(c["ast"]), "expected_canon": c["canon"], "parsed_canon": got}, "def_%04d.json" % nbad)
     checked += module_level(v, d)
+    checked += module_universe(v, d)
     v.cov["traces_validated_against_impl"] += checked
     v.cov["evaluations"] += checked
     v.cov["distinct_nontrivial"] = len(cases)
@@ -106,7 +107,7 @@ def run(v):
                      "order, names, kinds, ranges, named numbers, sizes + extensibility, tags with class, OPTIONAL/DEFAULT + literals, marker "
                      "position)." % len(cases))
     v.cov["samples"] = [{"asn1": asnprint.definition(c["ast"]), "canon": c["canon"]} for c in cases[7::max(1, len(cases) // 4)][:4]]
-    v.cov["checker_cmd"] = "tlc MC_Grammar; tools/asnprint.py; harness frontend canon"
+    v.cov["checker_cmd"] = "tlc MC_Grammar; tlc MC_Modules; tools/asnprint.py; harness frontend canon / canon1"
     v.assumptions += ["the printer (tools/asnprint.py) emits exactly one spelling per AST node; layout variation is C13's subject",
                       "subset as parsed by asn1rs (no extension groups, no second marker, marker after at least one component)"]
 
@@ -136,6 +137,53 @@ MODULE_LEVEL = [
       "values": [{"name": "a", "v": {"k": "int", "v": 5}}, {"name": "b", "v": {"k": "int", "v": -7}}, {"name": "c", "v": {"k": "bool", "v": True}},
                  {"name": "d", "v": {"k": "str", "v": [104, 105]}}]}),
 ]
+
+
+def oid_text(oid):
+    if not oid:
+        return ""
+    return " { " + " ".join("%s(%d)" % (n, k) if f == "both" else n if f == "name" else str(k) for f, n, k in oid) + " }"
+
+
+def module_universe(v, d):
+    """MC_Modules: every header form x every sequence of <= 3 IMPORTS clauses with / without object identifier."""
+    vec = os.path.join(d, "modules.ndjson")
+    t = run_tlc("C07", "MC_Modules", "SPECIFICATION Spec\nINVARIANTS Emit\nCHECK_DEADLOCK FALSE\n", replay_to=vec, coverage=False, heap="2g")
+    if t.violation:
+        raise ToolError("MC_Modules: " + t.violation)
+    v.add_tlc("MC_Modules", t)
+    mods = vlib.read_ndjson(vec)
+    if len(mods) != t.nreplay or not mods:
+        raise ToolError("no module cases")
+    texts = []
+    for i, m in enumerate(mods):
+        imp = ""
+        if m["imports"]:
+            imp = "IMPORTS " + " ".join("%s FROM %s%s" % (", ".join(c["what"]), c["from"], oid_text(c["oid"])) for c in m["imports"]) + "; "
+        texts.append("%s%s DEFINITIONS AUTOMATIC TAGS ::= BEGIN %sA ::= BOOLEAN END\n" % (m["name"], oid_text(m["oid"]), imp))
+    fin, fout = os.path.join(d, "mu.in"), os.path.join(d, "mu.out")
+    with open(fin, "w") as f:
+        for tx in texts:
+            f.write(json.dumps({"text": tx}) + "\n")
+    p = run_bin("frontend", ["canon1", fin, fout])
+    if p.returncode != 0:
+        raise ToolError("frontend canon1 failed: " + p.stderr[-800:])
+    rows = vlib.read_ndjson(fout)
+    if len(rows) != len(mods):
+        raise ToolError("frontend canon1: %d results for %d modules" % (len(rows), len(mods)))
+    nbad = 0
+    for i, (m, tx, r) in enumerate(zip(mods, texts, rows)):
+        if "error" in r:
+            why = "module-level form rejected: %s" % r["error"][:200]
+        else:
+            got = {"name": r["name"], "oid": r["oid"], "imports": r["imports"]}
+            want = {"name": m["name"], "oid": m["oid"], "imports": m["imports"]}
+            why = None if norm(got) == norm(want) else "module header / IMPORTS differ from the declared ones"
+        if why:
+            nbad += 1
+            if nbad <= 20:
+                v.violation("%s: %s" % (why, tx.strip()[:160]), {"module": tx, "declared": m, "parsed": r}, "modules_%03d.json" % nbad)
+    return len(mods)
 
 
 def module_level(v, d):
